@@ -3,6 +3,7 @@
 mod cfg;
 mod conc;
 mod concrun;
+mod embrun;
 mod exec;
 mod faultrun;
 mod handles;
@@ -77,6 +78,10 @@ fn main() {
                 split: a.contains_key("split"), lower_only: false, max_events: 100000000,
             };
             println!("{}", faultrun::run(lts, &o, get("pairs", "50").parse().unwrap()));
+            0
+        }
+        "emb" => {
+            println!("{}", embrun::run(&PathBuf::from(get("out", "work/emb"))));
             0
         }
         "handles" => {
